@@ -314,6 +314,18 @@ class Machine:
             ctx.assume(self.spec_bool(u))
         for i, e in enumerate(c.ensures):
             ctx.check(self.spec_bool(e), f"{c.key}/post[{i}]", "post")
+        # frame of container parameters: a dict / set parameter that the contract does not list in `modifies` is handed to callers' proofs by reference and
+        # assumed untouched there, so the body must leave it as it was
+        for pn, sname in c.params.items():
+            if sname.startswith(("Dict[", "ODict[", "Set[")) and pn not in c.modifies:
+                v0 = self.param_inputs.get(pn)
+                if isinstance(v0, VHeapRef) and v0.addr in self.old_heap:
+                    cell = ctx.cell(v0.addr)
+                    same = cell.value.term == self.old_heap[v0.addr].term
+                    k0 = getattr(self, "old_extra", {}).get(v0.addr, {}).get("keys")
+                    if k0 is not None and "keys" in cell.extra:
+                        same = z3.And(same, cell.extra["keys"].term == k0.term)
+                    ctx.check(same, f"{c.key}/frame/parameter-{pn}-unchanged", "frame")
         if c.post_hook is not None:
             for name, goal in c.post_hook(self):
                 ctx.check(goal, f"{c.key}/{name}", "post")
